@@ -150,6 +150,48 @@ func checkC07(c *Check) {
 				if okProv && len(g) > 0 {
 					okG, _ = guardedBy(sh, g, isInstr(s0))
 				}
+				// the results of a lookup step merged into variables (leaf, …, found): every incoming leaf is a
+				// shortcut hit / Match result that arrives through its own ok edge, or nil on an edge where the
+				// found flag — which guards the dispatch — is false
+				if ph, isPhi := leaf.(*ssa.Phi); isPhi && !okProv {
+					prov := func(v ssa.Value) EdgeSet {
+						e, isE := strip(v).(*ssa.Extract)
+						if !isE || e.Index != 0 {
+							return nil
+						}
+						switch t := e.Tuple.(type) {
+						case *ssa.Lookup:
+							if lk2, isL := strip(t.X).(*ssa.Lookup); isL && vField(vParam(sh, 0), "staticRoutes")(lk2.X) {
+								return edgesWhere(sh, cBool(vExtract(1, vIs(t))), true)
+							}
+						case *ssa.Call:
+							if callName(&t.Call) == "(route.Tree).Match" {
+								return edgesWhere(sh, cBool(vExtract(2, vIs(t))), true)
+							}
+						}
+						return nil
+					}
+					var flag *ssa.Phi
+					for _, in := range ph.Block().Instrs {
+						if f, isF := in.(*ssa.Phi); isF && types.Identical(f.Type(), types.Typ[types.Bool]) && len(f.Edges) == len(ph.Edges) {
+							fe := edgesWhere(sh, cBool(vIs(f)), true)
+							if gd, _ := guardedBy(sh, fe, isInstr(s0)); gd && len(fe) > 0 {
+								flag = f
+							}
+						}
+					}
+					all := len(ph.Edges) > 0
+					for i, e := range ph.Edges {
+						if ge := prov(e); len(ge) > 0 && edgeGuarded(sh, ge, ph.Block().Preds[i], ph.Block()) {
+							continue
+						}
+						if vNil(e) && flag != nil && vConstBool(false)(flag.Edges[i]) {
+							continue
+						}
+						all = false
+					}
+					okProv, okG = all, all
+				}
 				c.Cond(okProv && okG, k, p.Pos(s0.Pos()), "dispatched leaf = shortcut hit or Match result, on its ok edge", "a leaf is dispatched that does not come from this request's shortcut lookup or tree match (e.g. a result cache): the outcome depends on earlier requests or registrations")
 			} else {
 				// not-found: only on the missing-tree edge or the Match-failed edge
@@ -909,6 +951,87 @@ func dischargeIndexSite(c *Check, ca *cursorAnalysis, s IndexSite) (discharge, b
 // segmentStringStartsWithSlash: in the literal run by Segment.String's Once,
 // the first write to the buffer is the constant "/" and str = buf.String().
 func segmentStringStartsWithSlash(p *Prog) bool {
+	if segmentStringStartsWithSlashShape(p) {
+		return true
+	}
+	return segmentPrinterStartsWith(p, '/')
+}
+
+// segmentPrinterStartsWith decides the question on the printer's output language (the translation of
+// Segment.String used for C06.R4): every string it can produce is non-empty and starts with b.
+func segmentPrinterStartsWith(p *Prog, b byte) bool {
+	lt, err := extractLexer(p)
+	if err != nil {
+		return false
+	}
+	tg, err := extractTagGrammar(p)
+	if err != nil {
+		return false
+	}
+	blocks, err := readmeBlocks(p)
+	if err != nil {
+		return false
+	}
+	var spec *bnf
+	for _, bl := range blocks {
+		if strings.Contains(bl, "::=") {
+			spec, _ = parseBNF(bl)
+		}
+	}
+	if spec == nil {
+		return false
+	}
+	bc := buildByteClasses(lt, tg, spec)
+	pk := p.Pkgs["route"]
+	if pk == nil {
+		return false
+	}
+	var segFn *ast.FuncDecl
+	for _, f := range pk.Syntax {
+		for _, d := range f.Decls {
+			if fd, ok := d.(*ast.FuncDecl); ok && fd.Recv != nil && fd.Name.Name == "String" && recvTypeName(fd) == "Segment" {
+				segFn = fd
+			}
+		}
+	}
+	if segFn == nil {
+		return false
+	}
+	tokSet := func(tokType string) (Re, error) {
+		for _, st := range lt.Order {
+			for _, r := range lt.States[st] {
+				if r.Name == tokType && r.plus {
+					return rePlus{bc.setOf(r.set)}, nil
+				}
+			}
+		}
+		return nil, fmt.Errorf("token type %s has no class+ rule", tokType)
+	}
+	pe := &printerExtractor{p: p, tg: tg, bc: bc, tokSet: tokSet}
+	segRe, err := pe.funcBody(segFn, nil)
+	if err != nil {
+		return false
+	}
+	m := newNFAMachine(compileRe(segRe))
+	start := m.startKey()
+	if m.accepting(start) {
+		return false // the empty string can be printed
+	}
+	// the class of b must hold b alone, and be the only class with a live successor
+	for x := 0; x < 256; x++ {
+		if x != int(b) && bc.classOf[x] == bc.classOf[b] {
+			return false
+		}
+	}
+	for cls := 0; cls < bc.n; cls++ {
+		if cls != bc.classOf[b] && m.step(start, cls) != "" {
+			return false
+		}
+	}
+	return m.step(start, bc.classOf[b]) != ""
+}
+
+func segmentStringStartsWithSlashShape(p *Prog) bool {
 	m := p.Meth("route", "Segment", "String")
 	if m == nil {
 		return false
